@@ -204,7 +204,8 @@ bool splinetable<Alloc>::write_key(const char* key, const T& value){
 		std::copy(key,key+keylen,new_aux[naux][0]);
 		std::copy(valuedata.begin(),valuedata.end(),new_value);
 		*(new_value+valuelen-1)=0;
-		deallocate(aux,naux);
+		if(aux) //there is no array yet when the first key is added
+			deallocate(aux,naux);
 		aux = new_aux;
 		naux++;
 		return (true);
